@@ -536,16 +536,19 @@ let handle (req : sexp) : String.t =
         | _ -> bad "parselines case" in
       jobj ["status", jstr "ok"; "results", jlist one (lst cases)]
   | L [A "parseblock"; lines; expected] ->
-      (* Line.parse_block on the physical lines of the body of a headed expressions block (comment and blank lines skipped)
-         against the sequence of (name, expression) Lark reads in that block *)
+      (* Line.parse_body on the physical lines of the body of a headed expressions block (line feeds inside parentheses join,
+         comment and blank lines are skipped) against the sequence of (name, expression) Lark reads in that block; "statements" =
+         the number of logical lines that are neither comment nor blank (the caller compares only blocks where this is the number of
+         assignments Lark found: a line broken behind an operator outside parentheses is outside the line model) *)
       let ls = List.map (fun l -> cs (atom l)) (lst lines) in
       let exp = List.map (function L [A n; e] -> (n, expr_of e) | _ -> bad "parseblock expected") (lst expected) in
-      (match parse_block ls with
-       | None -> jobj ["status", jstr "ok"; "verdict", jstr "model-rejects"]
+      let stmts = List.length (List.filter (fun l -> not (skipped l)) (logical O EmptyString ls)) in
+      (match parse_body ls with
+       | None -> jobj ["status", jstr "ok"; "verdict", jstr "model-rejects"; "statements", string_of_int stmts]
        | Some got ->
          let same = List.length got = List.length exp
                     && List.for_all2 (fun ((x, e), _) (n, e2) -> os x = n && expr_eqb e e2) got exp in
-         jobj ["status", jstr "ok"; "verdict", jstr (if same then "agree" else "differ"); "assignments", string_of_int (List.length got)])
+         jobj ["status", jstr "ok"; "verdict", jstr (if same then "agree" else "differ"); "statements", string_of_int stmts])
   | L [A "symrhs"; A tries; inp] ->
       (* sympytools.rhs_matrix / jacobi_matrix of the mirror, evaluated at an input point *)
       let o = the_ode () in
